@@ -12,7 +12,9 @@ def one(d):
     tmp = tempfile.mkdtemp(prefix='fvref.')
     try:
         repo = os.path.join(tmp, 'repo'); verif = os.path.join(tmp, 'verif'); os.makedirs(verif)
-        subprocess.check_call(['rsync', '-a', '--exclude', '.git', '/repo/', repo + '/'])
+        # committed HEAD, not the working tree: seeds_fv.py may have a patch applied to /repo
+        os.makedirs(repo)
+        subprocess.check_call('git -C /repo archive HEAD | tar -x -C ' + repo, shell=True)
         shutil.copy('/verif/known_findings.json', verif)
         r = subprocess.run(['git', 'apply', os.path.join(d, 'patch.diff')], cwd=repo, capture_output=True, text=True)
         if r.returncode != 0:
